@@ -62,7 +62,8 @@ def gen_scenario(rng: random.Random) -> Dict[str, Any]:
         alias = "inst%d.%s" % (i, tp)
         events.append({"t": t, "type": tp, "alias": alias, "ttl": ttl, "what": "learn"})
         e = eff_ttl(ttl) * 1000
-        fate = rng.choice(["expire", "expire", "refresh", "refresh-late", "recase-refresh", "goodbye", "recase-goodbye", "refresh-twice"])
+        fate = rng.choice(["expire", "expire", "refresh", "refresh-late", "recase-refresh", "goodbye", "recase-goodbye", "refresh-twice",
+                           "goodbye-relearn", "goodbye-relearn"])
         if fate in ("refresh", "recase-refresh", "refresh-twice"):
             frac = rng.choice([0.01, 0.3, 0.5, 0.74])
             events.append({"t": t + int(e * frac), "type": tp, "alias": alias.upper() if fate == "recase-refresh" else alias,
@@ -72,6 +73,12 @@ def gen_scenario(rng: random.Random) -> Dict[str, Any]:
         elif fate == "refresh-late":
             frac = rng.choice([0.76, 0.8, 0.86, 0.96, 0.999])
             events.append({"t": t + int(e * frac), "type": tp, "alias": alias, "ttl": ttl, "what": fate})
+        elif fate == "goodbye-relearn":
+            # withdrawn and announced again shortly afterwards (a quick service restart), then left to expire
+            frac = rng.choice([0.0005, 0.001, 0.01, 0.5, 0.8])
+            gap = rng.choice([1, 500, 2000, 5000, 30000, 90000])
+            events.append({"t": t + int(e * frac), "type": tp, "alias": alias, "ttl": 0, "what": fate})
+            events.append({"t": t + int(e * frac) + gap, "type": tp, "alias": alias if rng.random() < 0.8 else alias.upper(), "ttl": rng.choice([ttl, ttl, 4500]), "what": fate})
         elif fate in ("goodbye", "recase-goodbye"):
             frac = rng.choice([0.01, 0.5, 0.8, 0.9])
             events.append({"t": t + int(e * frac), "type": tp, "alias": alias.upper() if fate == "recase-goodbye" else alias, "ttl": 0, "what": fate})
@@ -237,20 +244,27 @@ def analyse(res: Result, sim: simnet.Sim, sc: Dict[str, Any], out: Dict[str, Any
             why = []
             for alias, eps in by_type.get(tp, {}).items():
                 # the epoch current at t for this alias
-                cur = None
-                for ep in eps:
+                # the epoch current at t; an event in the very same virtual instant as the query may be processed before or
+                # after it, so the epoch that ends at t (refresh or goodbye at t) is a candidate as well
+                cands = []
+                for k, ep in enumerate(eps):
                     if ep.created <= t + 1e-6:
-                        cur = ep
-                if cur is None:
+                        cands = [ep]
+                        if ep.created >= t - 1e-6 and k > 0:
+                            cands.append(eps[k - 1])
+                if not cands:
                     continue
-                if cur.end_reason == "goodbye" and cur.end <= t + 1e-6:
-                    why.append("%s withdrawn at +%.0f" % (alias, cur.end - B))
-                    continue
-                due = cur.created + 750.0 * cur.ttl
-                if t >= due - delay - 1.0 and t <= cur.created + 1000.0 * cur.ttl + delay + 1.0:
-                    ok = True
+                for cur in cands:
+                    if cur.end_reason == "goodbye" and cur.end < t - 1e-6:
+                        why.append("%s withdrawn at +%.0f" % (alias, cur.end - B))
+                        continue
+                    due = cur.created + 750.0 * cur.ttl
+                    if t >= due - delay - 1.0 and t <= cur.created + 1000.0 * cur.ttl + delay + 1.0:
+                        ok = True
+                        break
+                    why.append("%s created +%.0f ttl %d due +%.0f" % (alias, cur.created - B, cur.ttl, due - B))
+                if ok:
                     break
-                why.append("%s created +%.0f ttl %d due +%.0f" % (alias, cur.created - B, cur.ttl, due - B))
             if not ok:
                 viol("c10.justified", "unjustified_query", "query for %s at +%.0f ms: no cached PTR of that type is at >=75%% of its TTL (%s)" % (tp, t - B, "; ".join(why[:3]) or "none cached"),
                      reason=("recased" if any(ev["what"].startswith("recase") for ev in sc["events"] if ev["type"] == tp) else "other"))
